@@ -16,6 +16,7 @@ import (
 // path to every return; no release of a mutex that is not held in that mode;
 // no re-acquisition of a mutex held on the same path.
 func lockPairing(c *core.Ctx, lc *core.LockCache, rule string, fns []*ssa.Function) {
+	reentrantAcquire(c, lc, rule, fns)
 	for _, fn := range fns {
 		lf := lc.Get(fn)
 		if lf.Ops == 0 {
@@ -446,4 +447,66 @@ func guardedEscapes(c *core.Ctx, lc *core.LockCache, el *entryLocks, rule string
 func isSliceType(t types.Type) bool {
 	_, ok := t.Underlying().(*types.Slice)
 	return ok
+}
+
+// reentrantAcquire: a function calls, while holding a mutex of an object, a
+// method of the same object that acquires that mutex again.  sync.Mutex
+// self-deadlocks at once; sync.RWMutex read locks deadlock as soon as a writer
+// is waiting between the two acquisitions.  Only failures are recorded.
+func reentrantAcquire(c *core.Ctx, lc *core.LockCache, rule string, fns []*ssa.Function) {
+	// lock acquisitions of a method on its own receiver
+	acquires := func(g *ssa.Function) []core.LockClass {
+		var out []core.LockClass
+		if g == nil || len(g.Blocks) == 0 || g.Signature.Recv() == nil || len(g.Params) == 0 {
+			return out
+		}
+		for _, call := range core.Calls(g) {
+			op, ok := core.LockOpOf(call)
+			if !ok || (op.Kind != core.OpLock && op.Kind != core.OpRLock) {
+				continue
+			}
+			if core.RootOf(call.Common().Args[0]) == ssa.Value(g.Params[0]) {
+				out = append(out, op.Class)
+			}
+		}
+		return out
+	}
+	for _, fn := range fns {
+		lf := lc.Get(fn)
+		if lf.Ops == 0 {
+			continue
+		}
+		for _, call := range core.Calls(fn) {
+			if _, plain := call.(*ssa.Call); !plain {
+				continue
+			}
+			g := core.StaticCallee(call)
+			if g == nil || !inRepo(g) || g == fn {
+				continue
+			}
+			classes := acquires(g)
+			if len(classes) == 0 {
+				continue
+			}
+			recv := core.RootOf(call.Common().Args[0])
+			for _, k := range classes {
+				held, _ := lf.HeldAt(call.(ssa.Instruction), k, false)
+				if !held {
+					continue
+				}
+				// the lock held here was taken on the same object
+				sameObj := false
+				for _, lcall := range core.Calls(fn) {
+					op, ok := core.LockOpOf(lcall)
+					if ok && op.Class == k && (op.Kind == core.OpLock || op.Kind == core.OpRLock) && core.RootOf(lcall.Common().Args[0]) == recv {
+						sameObj = true
+					}
+				}
+				if sameObj {
+					c.Fail(rule, "reentrant@"+core.FuncKey(fn)+"->"+g.Name(), call.Pos(),
+						fmt.Sprintf("%s is called with %s held, and acquires it again on the same object: a plain mutex self-deadlocks, and two read locks deadlock as soon as a writer asks for the lock between them (every later request on this object then hangs)", core.FuncKey(g), k))
+				}
+			}
+		}
+	}
 }
